@@ -1005,3 +1005,109 @@ func init() {
 	vModes["mswf"] = vMswFollower
 	vModes["msupd"] = vMsUpdRun
 }
+
+// ---------------------------------------------------------------------------------------------------------------------
+// mode clockjump (C05 / C06) — the REAL per-second loops (LockDB.checkTimeOut / checkExpried), which the other modes replace by their own
+// tick, driven through their wake-up channels with a virtual clock that sometimes JUMPS by several seconds (a stalled process, a
+// suspended VM): every second that was skipped must still be swept, so a wait / a hold whose deadline fell into the gap is ended at the
+// first tick after it. Monitors only.
+func vClockJumpRun(t *testing.T) {
+	out := vOpen("clockjump")
+	defer out.close()
+	seed := int64(vEnvInt("VERIF_SEED", 1))
+	r := rand.New(rand.NewSource(seed))
+	vFastPark = true
+	v := vNewSeq(2, 0xff)
+	rec := &vMsRec{got: map[int][]vMsReply{}}
+	v.onReply = func(rp vReply) { rec.add(rp.req, rp.result) }
+	tw, ew := make(chan struct{}), make(chan struct{})
+	go v.db.checkTimeOut(tw)
+	go v.db.checkExpried(ew)
+	advance := func(k int64) {
+		v.db.currentTime += k
+		v.expectNow = v.db.currentTime
+		tw <- struct{}{}
+		ew <- struct{}{}
+		time.Sleep(12 * time.Millisecond) // the loops start one sweep goroutine per skipped second and shard
+	}
+	advance(1)
+	has := func(req, result int) bool {
+		for w := 0; w < 120; w++ { // up to 600 ms for the sweep goroutines of this tick (a loaded machine)
+			for _, g := range rec.get(req) {
+				if g.result == result {
+					return true
+				}
+			}
+			time.Sleep(5 * time.Millisecond)
+		}
+		return false
+	}
+	req, key := 300000, 300000
+	for _, jump := range []int64{1, 2, 3, 5, 2, 4} {
+		for _, T := range []int{1, 2, 3, 4} {
+			for _, hold := range []bool{false, true} {
+				key++
+				req += 4
+				t0 := v.db.currentTime
+				var probe, want int
+				what := "wait"
+				if hold {
+					what = "hold"
+					probe, want = req, protocol_RESULT_EXPRIED
+					_ = v.conns[0].ProcessLockCommand(vMsCmd(protocol.COMMAND_LOCK, req, req, key, 0, 0, 0, uint16(T)))
+				} else {
+					probe, want = req+1, protocol_RESULT_TIMEOUT
+					_ = v.conns[0].ProcessLockCommand(vMsCmd(protocol.COMMAND_LOCK, req, req, key, 0, 0, 0, 60))
+					_ = v.conns[1].ProcessLockCommand(vMsCmd(protocol.COMMAND_LOCK, req+1, req+1, key, 0, uint16(T), 0, 10))
+				}
+				// the first step is the jump, then the clock ticks second by second
+				deadline := t0 + int64(T) + 1
+				answeredAt, firstDue := int64(-1), int64(-1)
+				for step := 0; step < 40 && answeredAt < 0; step++ {
+					if step == 0 {
+						advance(jump + int64(r.Intn(2)))
+					} else {
+						advance(1)
+					}
+					if firstDue < 0 && v.db.currentTime >= deadline {
+						firstDue = v.db.currentTime
+					}
+					if firstDue >= 0 && has(probe, want) {
+						answeredAt = v.db.currentTime
+					} else if firstDue < 0 {
+						for _, g := range rec.get(probe) {
+							if g.result == want {
+								answeredAt = v.db.currentTime
+							}
+						}
+					}
+				}
+				px := vMsPrefix(hold)
+				replay := map[string]interface{}{"mode": "clockjump", "kind": what, "T": T, "jump": jump, "seed": seed}
+				switch {
+				case answeredAt < 0:
+					out.monitor(px+":late:clock-jump", fmt.Sprintf("%s of %d s begun at %d: not ended 40 ticks after a clock jump of %d s (deadline %d)", what, T, t0, jump, deadline), replay)
+				case firstDue < 0 || answeredAt < deadline:
+					out.monitor(px+":early:clock-jump", fmt.Sprintf("%s of %d s begun at %d was ended at %d, before its deadline %d", what, T, t0, answeredAt, deadline), replay)
+				case answeredAt > firstDue+1:
+					out.monitor(px+":late:clock-jump", fmt.Sprintf("%s of %d s begun at %d (deadline %d) was ended at %d; the first tick at or after the deadline was %d (clock jump of %d s: the skipped seconds must be swept too)", what, T, t0, deadline, answeredAt, firstDue, jump), replay)
+				}
+				out.stat(fmt.Sprintf("jump%d", jump))
+				rec2 := fmt.Sprintf("# clockjump %s T=%d jump=%d", what, T, jump)
+				out.emit(rec2, rec2)
+				if !hold {
+					_ = v.conns[0].ProcessLockCommand(vMsCmd(protocol.COMMAND_UNLOCK, req+2, req, key, 0, 0, 0, 0))
+				}
+			}
+		}
+	}
+	v.db.status = STATE_CLOSE
+	close(tw)
+	close(ew)
+	time.Sleep(20 * time.Millisecond)
+	v.db.status = STATE_LEADER
+}
+
+func init() {
+	vModes["clockjump"] = vClockJumpRun
+}
